@@ -68,7 +68,7 @@ def check(ctx):
                 lines.append(call("replace_buf", h, nd, [88, 89], len(h) * 2 + 4))
     # command lines and paths built from words
     words = ["cmd", "a", "ab", "help", "x", "cmdx", "", "  ", "\t", "\r\n", "1", "--flag", "a b"]
-    for i in range(1500 if ctx.thorough else 400):
+    for i in range(12000 if ctx.thorough else 400):
         k = rng.randrange(0, 13)
         line = (rng.choice(["", " ", "  ", "\t"]) + rng.choice([" ", "  ", "\t", "\n", " \r\n"]).join(rng.choice(words) for _ in range(k)) + rng.choice(["", " ", "\n", "\r\n"]))
         s = [ord(c) for c in line]
@@ -82,7 +82,7 @@ def check(ctx):
         lines.append(call("argv", s, n=rng.choice([0, 1, 2, 3, 10, 11])))
         lines.append(call("argv_n", s, n=rng.choice([0, 1, 2, 3, 10])))
     comps = ["dev", "null", ".", "..", "a", "", "x.y", ".hidden", "b"]
-    for i in range(1500 if ctx.thorough else 400):
+    for i in range(12000 if ctx.thorough else 400):
         def mk():
             return rng.choice(["", "/", "//", "./"]) + rng.choice(["/", "//", "/./"]).join(rng.choice(comps) for _ in range(rng.randrange(0, 5))) + rng.choice(["", "/", "/."])
         p, q = mk(), mk()
@@ -90,7 +90,7 @@ def check(ctx):
         P, Q = [ord(c) for c in p], [ord(c) for c in q]
         lines += [call("path_next", P), call("path_iterate", P), call("compare_node", P, Q), call("remove_prefix", P, Q)]
     # random longer strings over all byte values
-    for i in range(800 if ctx.thorough else 150):
+    for i in range(6000 if ctx.thorough else 150):
         n = rng.randrange(5, 60)
         s = [rng.choice(ALPHA + [9, 13, 39]) if rng.random() < 0.6 else rng.randrange(1, 256) for _ in range(n)]
         lines += rng.sample(calls_for(rng, s, False), 10)
